@@ -20,7 +20,7 @@ EXPLANATION = (
     "a graph constant becomes a rank-0 symbolic value only under ndim() == 0; (forward-offsets) Slice inference picks values "
     "with a resolved SliceRange only under a positive-step test and builds the range end in the same form as the operator "
     "(no INT_MAX -> open end rewrite); (delegation) Operator::as_infer_shapes is called only by the graph inference driver. Whether each inference function "
-    "computes the right shape for all inputs is value-level and not decided.")
+    "computes the right shape for all inputs is value-level and not decided. (axis-rank) for the reviewed inference / execution pairs (Flatten, OneHot, Concat, Gather, TopK) the rank argument of resolve_axis has the same form - rank, or rank + 1 for an insertion position - on both sides, so a negative axis selects the same dimension.")
 ASSUMPTIONS = ["an inference type named like the operator implements that operator's ONNX shape rule"]
 INF = 'rten_shape_inference::infer_shapes::InferShapes'
 OP = 'rten::operator::Operator'
@@ -36,6 +36,7 @@ def run(ctx):
     scalar_rank(ctx, fb)
     forward_offsets(ctx, fb)
     delegation(ctx, fb)
+    axis_rank(ctx, fb)
 
 
 def summarize(fb, f, self_ty, inner, depth=2):
@@ -474,3 +475,46 @@ def delegation(ctx, fb):
     bad = [f.path for f, c in callers if not allowed.search(f.path)]
     ctx.inst(R, 'callers', not bad and len(callers) >= 1, 'Operator::as_infer_shapes is consulted only by the graph inference driver (%d call sites)' % len(callers) if not bad else
              'as_infer_shapes is called from %s' % bad[0], '')
+
+
+# ---------------------------------------------------------------------------------------------------------------
+# reviewed pairs: shape-inference impl (type name in rten_shape_inference::ops) <-> the execution functions that resolve the
+# same `axis` attribute.  An axis in [-r, r) is resolved against r ('rank'); an insertion position in [-(r+1), r] against
+# r + 1 ('rank+k').  The two sides of a pair must use the same form, or negative axes land on different dimensions.
+AXIS_PAIRS = {
+    'Flatten': ('rten::ops::layout::flattened_shape',),
+    'OneHot': ('rten::ops::generate::onehot',),
+    'Concat': ('rten::ops::concat::concat', 'rten::ops::concat::concat_in_place'),
+    'Gather': ('rten::ops::gather::gather',),
+    'TopK': ('rten::ops::reduce::topk',),
+}
+
+
+def _axis_forms(f):
+    out = []
+    for c in f.calls():
+        if re.search(r'::resolve_axis$', c.callee or '') and c.args:
+            og = f.origins(c.args[0])
+            out.append(('rank+k' if any(o[0] == 'binop' and 'Add' in str(o[1]) for o in og) else 'rank', c.loc()))
+    return out
+
+
+def axis_rank(ctx, fb):
+    R = 'C10.axis-rank'
+    n = 0
+    for op, execs in sorted(AXIS_PAIRS.items()):
+        inf = [f for f in fb.fns(crate='rten_shape_inference') if f.has_mir() and re.search(r'ops::\w+::%s as rten_shape_inference::infer_shapes::InferShapes>::infer_shapes$' % op, f.path)]
+        ex = [fb.fn(p) for p in execs]
+        if not ctx.anchor(R, 'infer_shapes of %s and %s' % (op, ', '.join(execs)), bool(inf) and all(e is not None and e.has_mir() for e in ex)):
+            continue
+        fi = _axis_forms(inf[0])
+        fe = [x for e in ex for x in _axis_forms(e)]
+        if not ctx.anchor(R, 'resolve_axis calls for ' + op, bool(fi) and bool(fe)):
+            continue
+        n += 1
+        si, se = {x[0] for x in fi}, {x[0] for x in fe}
+        ok = si == se and len(si) == 1
+        ctx.inst(R, 'same-rank-form:' + op, ok,
+                 'inference and execution both resolve the axis against %s' % ('the rank' if si == {'rank'} else 'rank + 1 (insertion position)') if ok else
+                 'shape inference of %s resolves its axis against %s but execution (%s) against %s: a negative axis selects a different dimension in the two, so the inferred shape contradicts the executed one' % (op, sorted(si), ', '.join(e.split('::')[-1] for e in execs), sorted(se)), fi[0][1])
+    ctx.floor(R, 'inference / execution pairs compared', n, 4)
